@@ -249,7 +249,7 @@ func (x *vc) eval(env *cenv, e *cexpr) Val {
 		if x.srt.sortOf(a.Typ) == sF64 || x.srt.sortOf(b.Typ) == sF64 {
 			a, b = x.toF64(a), x.toF64(b)
 			m := map[string]string{"+": "fp.add RNE", "-": "fp.sub RNE", "*": "fp.mul RNE", "/": "fp.div RNE"}
-			return Val{T: app(m[e.op], a.T, b.T), Typ: types.Typ[types.Float64]}
+			return Val{T: app(x.fpOp(m[e.op]), a.T, b.T), Typ: types.Typ[types.Float64]}
 		}
 		t := a.Typ
 		if isUntyped(t) {
@@ -284,6 +284,23 @@ func (x *vc) eval(env *cenv, e *cexpr) Val {
 	}
 	x.cfail("unsupported contract expression %s", e)
 	return Val{}
+}
+
+// callKey renders the first argument of ret(...): an expression that spells "callee#k" is not parseable as such,
+// so it is written  ret(eval_0, 0)  or  ret("eval#0", 0)
+func callKey(e *cexpr) string {
+	switch e.op {
+	case "str":
+		return e.name
+	case "id":
+		if k := strings.LastIndex(e.name, "_"); k > 0 {
+			return e.name[:k] + "#" + e.name[k+1:]
+		}
+		return e.name
+	case "sel":
+		return callKey(e.args[0]) + "." + callKey(&cexpr{op: "id", name: e.name})
+	}
+	return e.String()
 }
 
 func isUntyped(t types.Type) bool {
@@ -461,6 +478,9 @@ func (x *vc) selField(env *cenv, base Val, name string, e *cexpr) Val {
 				if len(env.bound) == 0 {
 					// values stored in a typed heap location satisfy their type's representation invariant
 					x.assume("true", x.typeInv(rd, ft, nil))
+					if rg, ok := x.p.cons.fieldRange[fieldKey(pt.Elem(), i)]; ok && base.T != "" {
+						x.assume("true", implies(not(eq(base.T, "0")), and(app("<=", rg[0], rd), app("<=", rd, rg[1]))))
+					}
 					if x.nn("field", fieldKey(pt.Elem(), i)) && base.T != "" {
 						// declared data-structure invariant (holds for every existing object of the type)
 						x.assume("true", implies(not(eq(base.T, "0")), x.nonNilFormula(Val{T: rd, Typ: ft})))
@@ -615,6 +635,59 @@ func (x *vc) evalCall(env *cenv, e *cexpr) Val {
 			return Val{T: "true", Typ: boolT}
 		}
 		return Val{T: app(">=", ref, env.old.nextRef), Typ: boolT}
+	case "kind", "valid", "rvlen", "elemof", "isnil", "canif", "canaddr", "canset", "fval", "sval", "bval", "res", "rvtype":
+		// observers of the reflect.Value model
+		v := x.eval(env, e.args[0])
+		m := map[string][2]string{"kind": {"rv_kind", "int"}, "valid": {"rv_valid", "bool"}, "rvlen": {"rv_len", "int"}, "elemof": {"rv_elem", "rv"}, "isnil": {"rv_isnil", "bool"},
+			"canif": {"rv_canif", "bool"}, "canaddr": {"rv_canaddr", "bool"}, "canset": {"rv_canset", "bool"}, "fval": {"rv_float", "f64"}, "sval": {"rv_str", "str"}, "bval": {"rv_bool", "bool"},
+			"res": {"rv_resolve", "rv"}, "rvtype": {"rv_type", "int"}}[e.name]
+		var t types.Type
+		switch m[1] {
+		case "int":
+			t = intT
+		case "bool":
+			t = boolT
+		case "f64":
+			t = types.Typ[types.Float64]
+		case "str":
+			t = types.Typ[types.String]
+		case "rv":
+			t = v.Typ
+		}
+		return Val{T: app(m[0], v.T), Typ: t}
+	case "fmod", "fpow": // the library functions math.Mod / math.Pow (uninterpreted, trusted)
+		fn := map[string]string{"fmod": "math_mod", "fpow": "math_pow"}[e.name]
+		x.needDecl(fmt.Sprintf("(declare-fun %s (F64 F64) F64)", fn))
+		a := x.toF64(x.eval(env, e.args[0]))
+		b := x.toF64(x.eval(env, e.args[1]))
+		return Val{T: app(fn, a.T, b.T), Typ: types.Typ[types.Float64]}
+	case "ret": // ret(callee#k, i): i-th result of the k-th call (in generation order) to a callee under contract
+		if len(e.args) != 2 || e.args[1].op != "int" {
+			x.cfail("ret(callee#k, i): bad arguments")
+		}
+		key := callKey(e.args[0])
+		v, ok := x.callRes[key]
+		if !ok {
+			x.cfail("ret: the function makes no call %s", key)
+		}
+		i, _ := strconv.Atoi(e.args[1].name)
+		if len(v.Tuple) > 0 {
+			if i >= len(v.Tuple) {
+				x.cfail("ret: %s has no result %d", key, i)
+			}
+			return v.Tuple[i]
+		}
+		return v
+	case "depth": // depth(v): length of the Interface/Ptr chain below v (finite: values are acyclic; trusted)
+		v := x.eval(env, e.args[0])
+		return Val{T: app("rv_depth", v.T), Typ: intT}
+	case "at": // at(v, i): i-th element of an array-like reflect.Value
+		v := x.eval(env, e.args[0])
+		i := x.eval(env, e.args[1])
+		return Val{T: app("rv_index", v.T, i.T), Typ: v.Typ}
+	case "rvof": // rvof(x): reflect.ValueOf(x)
+		v := x.eval(env, e.args[0])
+		return Val{T: app("rv_of", v.T), Typ: nil}
 	case "frame": // frame(x): the heap arrays that hold x's kind of container are unchanged at every reference that existed at entry
 		v := x.eval(env, e.args[0])
 		var names []string
@@ -659,6 +732,34 @@ func (x *vc) evalCall(env *cenv, e *cexpr) Val {
 		a := x.eval(env, e.args[0])
 		b := x.eval(env, e.args[1])
 		return Val{T: x.strEq(a, b), Typ: boolT}
+	}
+	// uninterpreted spec functions: ufb_<name>(...) : Bool, ufi_<name>(...) : Int  (declared on first use)
+	if strings.HasPrefix(e.name, "ufb_") || strings.HasPrefix(e.name, "ufi_") {
+		var args, sorts []string
+		for _, a := range e.args {
+			v := x.eval(env, a)
+			args = append(args, v.T)
+			if v.Typ == nil || isUntyped(v.Typ) {
+				sorts = append(sorts, sInt)
+			} else {
+				sorts = append(sorts, x.srt.sortOf(v.Typ))
+			}
+		}
+		res, rt := sBool, types.Type(boolT)
+		if strings.HasPrefix(e.name, "ufi_") {
+			res, rt = sInt, intT
+		}
+		decl := fmt.Sprintf("(declare-fun %s (%s) %s)", e.name, strings.Join(sorts, " "), res)
+		found := false
+		for _, d := range x.decls {
+			if d == decl {
+				found = true
+			}
+		}
+		if !found {
+			x.decls = append(x.decls, decl)
+		}
+		return Val{T: app(e.name, args...), Typ: rt}
 	}
 	// predicates / spec functions: inline expansion
 	if pd, ok := x.p.cons.preds[e.name]; ok {
@@ -767,10 +868,19 @@ func (x *vc) globalValue(fr *frame, st *state, g *ssa.Global) (Val, bool) {
 		return Val{}, false
 	}
 	init, info := x.p.findGlobalInit(g)
-	if init == nil || !x.globalImmutable(g) {
+	if !x.globalImmutable(g) {
 		return Val{}, false
 	}
 	et := g.Type().Underlying().(*types.Pointer).Elem()
+	if init == nil {
+		// declared without initialiser and never stored to: it holds the zero value of its type for ever
+		if !x.globalDeclaredWithoutInit(g) {
+			return Val{}, false
+		}
+		v := Val{T: x.srt.zero(et), Typ: et}
+		cache[g] = &v
+		return v, true
+	}
 	// initialised by a call to a function under contract: the (immutable) variable satisfies that function's
 	// postconditions, with the parameters bound to the constant arguments of the call
 	if call, ok := init.(*ast.CallExpr); ok {
@@ -838,6 +948,32 @@ func (x *vc) globalValue(fr *frame, st *state, g *ssa.Global) (Val, bool) {
 	cache[g] = &v
 	x.trusted["const: value of immutable package table "+g.Pkg.Pkg.Name()+"."+g.Name()+" taken from its initialiser (no store outside init found by scan)"] = true
 	return v, true
+}
+
+// globalDeclaredWithoutInit: `var g T` with no value in any declaration of the package (an init function
+// assigning it would be seen by the immutability scan, which covers every function of the package)
+func (x *vc) globalDeclaredWithoutInit(g *ssa.Global) bool {
+	pk := x.p.ppkgs[g.Pkg.Pkg.Path()]
+	if pk == nil {
+		return false
+	}
+	for _, f := range pk.Syntax {
+		for _, d := range f.Decls {
+			gd, ok := d.(*ast.GenDecl)
+			if !ok || gd.Tok != token.VAR {
+				continue
+			}
+			for _, s := range gd.Specs {
+				vs := s.(*ast.ValueSpec)
+				for _, n := range vs.Names {
+					if n.Name == g.Name() {
+						return len(vs.Values) == 0
+					}
+				}
+			}
+		}
+	}
+	return false
 }
 
 // constExpr translates a constant composite literal into an SMT term
